@@ -108,8 +108,10 @@ CLAIMS = {
         text="Proof: exact postcondition, purity and no-draw for every built-in reward and termination component (distance "
              "functions as uninterpreted callables with ghost call traces), reduce_sum / reduce_any / reduce_all over three opaque "
              "parts (same triple, sum / or / and), exit-reward iff exit-termination lemma, and GridWorld.functional_step wiring "
-             "(reward and termination evaluated on (state, action, next_state) of the same step). Not covered: "
-             "getting_closer_shortest_path / dijkstra (numpy BFS, outside the verifier).",
+             "(reward and termination evaluated on (state, action, next_state) of the same step). "
+             "getting_closer_shortest_path is proved relative to a stubbed dijkstra (each distance is looked up in a table "
+             "computed from that state's own layout and object position); dijkstra itself (numpy BFS) is a bounded stand-in "
+             "(all layouts up to 3x3 / 4x4) and the shaping sign is also compared natively with an independent BFS.",
         design='5/C12'),
     'C18': dict(
         text="Proof: contracts on the real geometry operators (Orientation/Position/Transform/Area methods, Grid.__mul__, "
